@@ -2534,15 +2534,28 @@ func ruleR109(c *Ctx) {
 						return true
 					}
 					seen = true
-					good := false
-					ast.Inspect(rhs, func(z ast.Node) bool {
-						if cl, isCall := z.(*ast.CallExpr); isCall && isBuiltin(gin, cl, "len") && len(cl.Args) == 1 {
-							if av := fieldOf(gin, cl.Args[0]); av != nil && strings.Contains(strings.ToLower(av.Name()), "incoming") {
-								good = true
+					// the width IS the number of incoming flows: len(<incoming>) itself, or a local that holds it — not
+					// a value computed from it (a helper that maps it to something else decides the width, not the wiring)
+					isLenIncoming := func(e ast.Expr) bool {
+						cl, isCall := unparen(e).(*ast.CallExpr)
+						if !isCall || !isBuiltin(gin, cl, "len") || len(cl.Args) != 1 {
+							return false
+						}
+						av := fieldOf(gin, cl.Args[0])
+						return av != nil && strings.Contains(strings.ToLower(av.Name()), "incoming")
+					}
+					good := isLenIncoming(rhs)
+					if id, isId := unparen(rhs).(*ast.Ident); isId && !good {
+						if o := objOf(gin, id); o != nil && isLocalVar(g.Root(), o) {
+							defs, _ := localDefs(gin, g.Root().Body, o)
+							good = len(defs) > 0
+							for _, d := range defs {
+								if !isLenIncoming(d) {
+									good = false
+								}
 							}
 						}
-						return true
-					})
+					}
 					if good {
 						ok = true
 					} else {
